@@ -132,6 +132,19 @@ def scaleText (k : Nat) : Bool → Str → Str
     else if b && (c = ' ' || c = '\t') then List.replicate k c ++ scaleText k true r
     else c :: scaleText k false r
 
+/-- lines of a file: the first line as it is, every further line in "after a line break" mode -/
+def scaleLines (k : Nat) : List Str → List Str
+  | [] => []
+  | l :: ls => l :: ls.map (scaleText k true)
+
+/-- what scaling needs of one raw line: no line break inside, and if it is a `...` line, what follows the dots does not begin with a blank
+    (the region of the open finding `eol-comment-pre-expansion-v2`: that rest stays behind on a line of its own) -/
+def ScaleLineOK (l : Str) : Prop :=
+  (∀ ch ∈ l, ch ≠ '\n') ∧ ∀ sp rest, PreExpand.matchDots l = some (sp, rest) → rest.head? ≠ some ' ' ∧ rest.head? ≠ some '\t'
+
+/-- the statements the `...` is rewritten to begin with neither a blank nor contain a line break (generated data) -/
+def ExpansionOK : Prop := ∀ e ∈ PreExpand.expansion, (∀ ch ∈ e, ch ≠ '\n') ∧ e.head? ≠ some ' ' ∧ e.head? ≠ some '\t'
+
 /-- a toy tokenizer for non-vacuity examples: every `a` is a one-character NAME -/
 def toyOracle : Oracle := fun s => match s with | 'a' :: _ => some ("NAME", 1) | _ => none
 
